@@ -60,7 +60,10 @@ def documented_fatal(name):
     # default equation environment, parser.py expand_sequence)
     return ('Parser.expand_sequence:call:fatal' in name or
             # recursive \\LTinput: clean fatal exit (C07 excludes recursion)
-            'handlers.h_load_defs:call:fatal' in name)
+            'handlers.h_load_defs:call:fatal' in name or
+            # the run-time guard of macro definitions ("illegal argument
+            # reference"): a clean fatal exit by design
+            'Expandable.__init__.<locals>.check:call:fatal' in name)
 
 
 H = 'yalafi.handlers.'
